@@ -1,7 +1,665 @@
-//! C17 — not built yet (stub).
+//! C17 — Stream framing is independent of how the bytes are chunked.
+//!
+//! `TcpStream::from_stream` over a scripted `DnsTcpStream`, polled by hand with a counting
+//! waker (no runtime): inbound bytes arrive in generated chunks with would-block steps and an
+//! optional close position; outbound writes are accepted in generated sizes (vectored or not).
+//! Oracle `framing_ref`: the items yielded are exactly the complete messages before the close
+//! position, then a clean end / an error / nothing; the octets accepted by the socket are the
+//! concatenation of `len_be16 ‖ body` of the sent messages.
 
-use crate::core::Check;
+use std::io;
+use std::net::SocketAddr;
+use std::pin::Pin;
+use std::sync::atomic::{AtomicU64, Ordering};
+use std::sync::{Arc, Mutex};
+use std::task::{Context, Poll, Wake, Waker};
+
+use futures_util::io::{AsyncRead, AsyncWrite, IoSlice};
+use futures_util::stream::Stream;
+use hickory_net::runtime::DnsTcpStream;
+use hickory_net::tcp::TcpStream;
+use hickory_net::xfer::DnsStreamHandle;
+use hickory_proto::op::SerialMessage;
+use proptest::collection::vec;
+use proptest::prelude::*;
+use serde::{Deserialize, Serialize};
+
+use crate::core::{enumerate, CaseResult, Check, Env, Rec};
+use crate::sim::SimTime;
+
+#[derive(Clone, Debug, Serialize, Deserialize, PartialEq, Eq)]
+enum Close {
+    /// the peer never closes: after the last message reads would block forever
+    Never,
+    /// EOF exactly after `k` complete messages
+    AfterMsg(usize),
+    /// EOF after `k` complete messages plus `n` octets (n ≥ 1, strictly inside the frame)
+    Inside(usize, usize),
+    /// connection reset (io error) after k complete messages plus n octets (n ≥ 0)
+    Reset(usize, usize),
+}
+
+#[derive(Clone, Debug, Serialize, Deserialize)]
+struct Case {
+    /// lengths and fill seeds of the inbound messages (bodies are derived, see `body`)
+    inbound: Vec<(u16, u8)>,
+    /// per poll_read call: 0 = would block (wakes immediately), n = deliver at most n octets; cyclic
+    read_chunks: Vec<u16>,
+    close: Close,
+    outbound: Vec<(u16, u8)>,
+    /// per poll_write(_vectored) call: 0 = would block, n = accept at most n octets; cyclic
+    write_accepts: Vec<u16>,
+    /// the socket implements poll_write_vectored natively (accepting across both slices)
+    vectored: bool,
+    /// outbound message i is handed to the sender before poll number send_at[i] (sorted)
+    send_at: Vec<u8>,
+}
+
+fn body(len: u16, seed: u8) -> Vec<u8> {
+    // recognisable, position-dependent content so that merged / shifted / duplicated octets show
+    (0..len as usize)
+        .map(|i| (seed as usize).wrapping_mul(31).wrapping_add(i.wrapping_mul(7)).wrapping_add(i >> 8) as u8)
+        .collect()
+}
+
+fn frame(len: u16, seed: u8) -> Vec<u8> {
+    let mut f = len.to_be_bytes().to_vec();
+    f.extend(body(len, seed));
+    f
+}
+
+struct Sock {
+    inbound: Vec<u8>,
+    rpos: usize,
+    eof: bool,
+    reset_at: Option<usize>,
+    read_chunks: Vec<u16>,
+    ri: usize,
+    written: Vec<u8>,
+    write_accepts: Vec<u16>,
+    wi: usize,
+    vectored: bool,
+    reads: u64,
+    writes: u64,
+    min_vectored_accept: Option<usize>,
+    flushed_upto: usize,
+    /// more octets than all framed outbound messages contain must never be written
+    write_limit: usize,
+    overflow: bool,
+}
+
+#[derive(Clone)]
+struct ScriptTcp(Arc<Mutex<Sock>>);
+
+impl DnsTcpStream for ScriptTcp {
+    type Time = SimTime;
+}
+
+impl AsyncRead for ScriptTcp {
+    fn poll_read(self: Pin<&mut Self>, cx: &mut Context<'_>, buf: &mut [u8]) -> Poll<io::Result<usize>> {
+        let mut s = self.0.lock().unwrap();
+        s.reads += 1;
+        if let Some(r) = s.reset_at {
+            if s.rpos >= r {
+                return Poll::Ready(Err(io::Error::new(io::ErrorKind::ConnectionReset, "scripted reset")));
+            }
+        }
+        if s.rpos >= s.inbound.len() {
+            if s.eof {
+                return Poll::Ready(Ok(0));
+            }
+            // peer is silent: block without a wake-up
+            return Poll::Pending;
+        }
+        let n = if s.read_chunks.is_empty() {
+            u16::MAX
+        } else {
+            let i = s.ri % s.read_chunks.len();
+            s.ri += 1;
+            s.read_chunks[i]
+        };
+        if n == 0 {
+            cx.waker().wake_by_ref();
+            return Poll::Pending;
+        }
+        let mut take = (n as usize).min(buf.len()).min(s.inbound.len() - s.rpos);
+        if let Some(r) = s.reset_at {
+            take = take.min(r - s.rpos);
+        }
+        let rpos = s.rpos;
+        buf[..take].copy_from_slice(&s.inbound[rpos..rpos + take]);
+        s.rpos += take;
+        Poll::Ready(Ok(take))
+    }
+}
+
+impl ScriptTcp {
+    fn next_accept(s: &mut Sock) -> u16 {
+        if s.write_accepts.is_empty() {
+            u16::MAX
+        } else {
+            let i = s.wi % s.write_accepts.len();
+            s.wi += 1;
+            s.write_accepts[i]
+        }
+    }
+}
+
+impl AsyncWrite for ScriptTcp {
+    fn poll_write(self: Pin<&mut Self>, cx: &mut Context<'_>, buf: &[u8]) -> Poll<io::Result<usize>> {
+        let mut s = self.0.lock().unwrap();
+        s.writes += 1;
+        if buf.is_empty() {
+            return Poll::Ready(Ok(0));
+        }
+        let n = Self::next_accept(&mut s);
+        if n == 0 {
+            cx.waker().wake_by_ref();
+            return Poll::Pending;
+        }
+        let take = (n as usize).min(buf.len());
+        if s.written.len() + take > s.write_limit {
+            s.overflow = true;
+            return Poll::Ready(Err(io::Error::other("harness: more octets written than the framed messages contain")));
+        }
+        s.written.extend_from_slice(&buf[..take]);
+        Poll::Ready(Ok(take))
+    }
+
+    fn poll_write_vectored(self: Pin<&mut Self>, cx: &mut Context<'_>, bufs: &[IoSlice<'_>]) -> Poll<io::Result<usize>> {
+        let vectored = self.0.lock().unwrap().vectored;
+        if !vectored {
+            // what the trait's default does: the first non-empty slice only
+            let first = bufs.iter().find(|b| !b.is_empty()).map(|b| &**b).unwrap_or(&[]);
+            return self.poll_write(cx, first);
+        }
+        let mut s = self.0.lock().unwrap();
+        s.writes += 1;
+        let total: usize = bufs.iter().map(|b| b.len()).sum();
+        if total == 0 {
+            return Poll::Ready(Ok(0));
+        }
+        let n = Self::next_accept(&mut s);
+        if n == 0 {
+            cx.waker().wake_by_ref();
+            return Poll::Pending;
+        }
+        let mut left = (n as usize).min(total);
+        let accepted = left;
+        if s.written.len() + accepted > s.write_limit {
+            s.overflow = true;
+            return Poll::Ready(Err(io::Error::other("harness: more octets written than the framed messages contain")));
+        }
+        for b in bufs {
+            let t = left.min(b.len());
+            s.written.extend_from_slice(&b[..t]);
+            left -= t;
+            if left == 0 {
+                break;
+            }
+        }
+        s.min_vectored_accept = Some(s.min_vectored_accept.map_or(accepted, |m| m.min(accepted)));
+        Poll::Ready(Ok(accepted))
+    }
+
+    fn poll_flush(self: Pin<&mut Self>, _cx: &mut Context<'_>) -> Poll<io::Result<()>> {
+        let mut s = self.0.lock().unwrap();
+        s.flushed_upto = s.written.len();
+        Poll::Ready(Ok(()))
+    }
+
+    fn poll_close(self: Pin<&mut Self>, _cx: &mut Context<'_>) -> Poll<io::Result<()>> {
+        Poll::Ready(Ok(()))
+    }
+}
+
+struct CountWaker(AtomicU64);
+
+impl Wake for CountWaker {
+    fn wake(self: Arc<Self>) {
+        self.0.fetch_add(1, Ordering::SeqCst);
+    }
+    fn wake_by_ref(self: &Arc<Self>) {
+        self.0.fetch_add(1, Ordering::SeqCst);
+    }
+}
+
+#[derive(Debug, PartialEq, Eq)]
+enum End {
+    /// stream still open and idle (Pending, nobody will wake it)
+    Idle,
+    CleanEnd,
+    Error(io::ErrorKind),
+}
+
+fn run_case(c: &Case, rec: &mut Rec) -> CaseResult {
+    let peer: SocketAddr = "192.0.2.7:53".parse().unwrap();
+    // ---- reference --------------------------------------------------------------------------
+    let frames: Vec<Vec<u8>> = c.inbound.iter().map(|(l, s)| frame(*l, *s)).collect();
+    let full: Vec<u8> = frames.concat();
+    let offset_of = |k: usize| -> usize { frames[..k].iter().map(|f| f.len()).sum() };
+    let (cut, eof, reset_at, complete, exp_end) = match &c.close {
+        Close::Never => (full.len(), false, None, frames.len(), End::Idle),
+        Close::AfterMsg(k) => {
+            let k = (*k).min(frames.len());
+            (offset_of(k), true, None, k, End::CleanEnd)
+        }
+        Close::Inside(k, n) => {
+            if frames.is_empty() {
+                (0, true, None, 0, End::CleanEnd)
+            } else {
+                let k = (*k).min(frames.len() - 1);
+                let n = 1 + (*n % (frames[k].len() - 1)); // 1 ..= len-1: strictly inside frame k
+                (offset_of(k) + n, true, None, k, End::Error(io::ErrorKind::BrokenPipe))
+            }
+        }
+        Close::Reset(k, n) => {
+            if frames.is_empty() {
+                (0, false, Some(0), 0, End::Error(io::ErrorKind::ConnectionReset))
+            } else {
+                let k = (*k).min(frames.len() - 1);
+                let n = *n % frames[k].len(); // 0 ..= len-1
+                (full.len(), false, Some(offset_of(k) + n), k, End::Error(io::ErrorKind::ConnectionReset))
+            }
+        }
+    };
+    let exp_msgs: Vec<Vec<u8>> = c.inbound[..complete].iter().map(|(l, s)| body(*l, *s)).collect();
+    let out_frames: Vec<Vec<u8>> = c.outbound.iter().map(|(l, s)| frame(*l, *s)).collect();
+
+    // ---- drive the real stream ----------------------------------------------------------------
+    // a script of would-blocks only would never make progress: that is not a chunking of the stream
+    let norm = |v: &Vec<u16>| -> Vec<u16> {
+        let mut v = v.clone();
+        if !v.is_empty() && v.iter().all(|x| *x == 0) {
+            v.push(1);
+        }
+        v
+    };
+    let read_chunks = norm(&c.read_chunks);
+    let write_accepts = norm(&c.write_accepts);
+    let sock = Arc::new(Mutex::new(Sock {
+        inbound: full[..cut].to_vec(),
+        rpos: 0,
+        eof,
+        reset_at,
+        read_chunks: read_chunks.clone(),
+        ri: 0,
+        written: Vec::new(),
+        write_accepts: write_accepts.clone(),
+        wi: 0,
+        vectored: c.vectored,
+        reads: 0,
+        writes: 0,
+        min_vectored_accept: None,
+        flushed_upto: 0,
+        write_limit: out_frames.iter().map(|f| f.len()).sum::<usize>(),
+        overflow: false,
+    }));
+    let (mut stream, mut handle) = TcpStream::from_stream(ScriptTcp(sock.clone()), peer);
+    let wk = Arc::new(CountWaker(AtomicU64::new(0)));
+    let waker = Waker::from(wk.clone());
+    let mut cx = Context::from_waker(&waker);
+
+    let mut got: Vec<Vec<u8>> = Vec::new();
+    let end;
+    let mut sent = 0usize;
+    let mut polls = 0u64;
+    let mut send_at: Vec<u8> = c.send_at.clone();
+    send_at.resize(c.outbound.len(), 0);
+    send_at.sort();
+    // every poll either transfers ≥ 1 octet or consumes one would-block script entry
+    let max_polls = 1_000
+        + 4 * (full.len() as u64 + out_frames.iter().map(|f| f.len() as u64).sum::<u64>() + 8)
+            * (read_chunks.len().max(write_accepts.len()) as u64 + 2);
+    loop {
+        while sent < c.outbound.len() && (send_at[sent] as u64) <= polls {
+            let (l, s) = c.outbound[sent];
+            if let Err(e) = handle.send(SerialMessage::new(body(l, s), peer)) {
+                vfail!("harness", "sender refused message {sent}: {e}");
+            }
+            sent += 1;
+        }
+        let before = wk.0.load(Ordering::SeqCst);
+        polls += 1;
+        if polls > max_polls {
+            vfail!("framing-livelock", "stream still making no progress after {max_polls} polls");
+        }
+        match Pin::new(&mut stream).poll_next(&mut cx) {
+            Poll::Ready(Some(Ok(m))) => {
+                vensure!(m.addr() == peer, "framing-wrong-peer", "message attributed to {}", m.addr());
+                got.push(m.into_parts().0);
+                if got.len() > exp_msgs.len() + 4 {
+                    vfail!("framing-extra-message", "more messages yielded than were sent: {}", got.len());
+                }
+            }
+            Poll::Ready(Some(Err(e))) => {
+                end = End::Error(e.kind());
+                break;
+            }
+            Poll::Ready(None) => {
+                end = End::CleanEnd;
+                break;
+            }
+            Poll::Pending => {
+                let woken = wk.0.load(Ordering::SeqCst) != before;
+                if !woken && sent == c.outbound.len() {
+                    end = End::Idle;
+                    break;
+                }
+                if !woken && sent < c.outbound.len() {
+                    // idle until the next send point
+                    polls = polls.max(send_at[sent] as u64);
+                }
+            }
+        }
+    }
+
+    // ---- compare --------------------------------------------------------------------------------
+    vensure!(
+        !sock.lock().unwrap().overflow,
+        "framing-outbound-bytes-wrong",
+        "the stream tried to write more octets than the framed outbound messages contain (duplicated octets)"
+    );
+    let show = |v: &Vec<Vec<u8>>| -> String {
+        v.iter().map(|m| format!("{}B:{}", m.len(), crate::core::hexser::to_hex(&m[..m.len().min(6)]))).collect::<Vec<_>>().join(",")
+    };
+    for (i, (g, e)) in got.iter().zip(exp_msgs.iter()).enumerate() {
+        if g != e {
+            let sig = if g.len() < e.len() {
+                "framing-truncated-message"
+            } else if g.len() > e.len() {
+                "framing-merged-message"
+            } else {
+                "framing-corrupted-message"
+            };
+            vfail!(sig, "message {i}: expected {} octets, got {} octets; got [{}] expected [{}]", e.len(), g.len(), show(&got), show(&exp_msgs));
+        }
+    }
+    vensure!(
+        got.len() <= exp_msgs.len(),
+        "framing-extra-message",
+        "yielded {} messages, only {} were complete before the close: got [{}]",
+        got.len(),
+        exp_msgs.len(),
+        show(&got)
+    );
+    vensure!(
+        got.len() == exp_msgs.len(),
+        "framing-lost-message",
+        "yielded {} of {} complete messages before ending with {end:?} (expected end {exp_end:?})",
+        got.len(),
+        exp_msgs.len()
+    );
+    match (&exp_end, &end) {
+        (End::Idle, End::Idle) | (End::CleanEnd, End::CleanEnd) => {}
+        (End::Error(_), End::Error(_)) => {}
+        (End::Error(_), End::CleanEnd) => vfail!("framing-clean-end-inside-frame", "close {:?} inside a frame ended the stream cleanly", c.close),
+        (End::CleanEnd, End::Error(k)) => vfail!("framing-error-on-boundary-close", "close on a message boundary gave error {k:?}"),
+        (e, g) => vfail!("framing-wrong-end", "expected end {e:?}, got {g:?}"),
+    }
+    let s = sock.lock().unwrap();
+    let exp_out: Vec<u8> = out_frames.concat();
+    if end == End::Idle {
+        vensure!(
+            s.written == exp_out,
+            "framing-outbound-bytes-wrong",
+            "socket accepted {} octets, expected {} (first difference at {:?})",
+            s.written.len(),
+            exp_out.len(),
+            s.written.iter().zip(exp_out.iter()).position(|(a, b)| a != b)
+        );
+    } else {
+        // the stream ended: what was written must still be a prefix of the framed messages
+        vensure!(
+            exp_out.starts_with(&s.written),
+            "framing-outbound-bytes-wrong",
+            "socket accepted {} octets which are not a prefix of the framed outbound messages (first difference at {:?})",
+            s.written.len(),
+            s.written.iter().zip(exp_out.iter()).position(|(a, b)| a != b)
+        );
+    }
+
+    // ---- classes / non-triviality ---------------------------------------------------------------
+    // does some read chunk boundary fall inside a length prefix?
+    let split_prefix = {
+        // replay the read script on the inbound stream to find boundaries
+        let mut pos = 0usize;
+        let mut ri = 0usize;
+        let mut hit = false;
+        let mut frame_starts = Vec::new();
+        let mut o = 0;
+        for f in &frames {
+            frame_starts.push(o);
+            o += f.len();
+        }
+        let inb = cut.min(reset_at.unwrap_or(cut));
+        let mut guard = 0;
+        while pos < inb && guard < 100_000 {
+            guard += 1;
+            let n = if read_chunks.is_empty() { u16::MAX } else { read_chunks[ri % read_chunks.len()] } as usize;
+            ri += 1;
+            if n == 0 {
+                continue;
+            }
+            // the stream reads prefix and body separately, so a 1-octet chunk at a frame start splits the prefix
+            let fs = frame_starts.iter().rev().find(|s| **s <= pos).copied().unwrap_or(0);
+            let in_prefix = pos - fs < 2;
+            let room = if in_prefix { 2 - (pos - fs) } else { usize::MAX };
+            let take = n.min(room).min(inb - pos);
+            if in_prefix && take < room {
+                hit = true;
+            }
+            pos += take;
+        }
+        hit
+    };
+    let small_vectored = s.min_vectored_accept.is_some_and(|m| m < 2);
+    rec.class(match &c.close {
+        Close::Never => "close=never",
+        Close::AfterMsg(_) => "close=boundary",
+        Close::Inside(..) => "close=inside-frame",
+        Close::Reset(..) => "close=reset",
+    });
+    rec.class(if c.vectored { "vectored-native" } else { "vectored-default" });
+    if split_prefix {
+        rec.class("read-splits-length-prefix");
+    }
+    if small_vectored {
+        rec.class("vectored-write-accepts<2");
+    }
+    if c.read_chunks.contains(&0) || c.write_accepts.contains(&0) {
+        rec.class("has-would-block");
+    }
+    rec.count("polls", polls);
+    rec.count("socket_reads", s.reads);
+    rec.count("socket_writes", s.writes);
+    if split_prefix || small_vectored {
+        rec.nontrivial();
+        if rec.wants_note() {
+            rec.note(format!(
+                "in lens {:?} chunks {:?} close {:?} | out lens {:?} accepts {:?} vectored={} -> {} msgs, end {:?}",
+                c.inbound.iter().map(|x| x.0).collect::<Vec<_>>(),
+                c.read_chunks,
+                c.close,
+                c.outbound.iter().map(|x| x.0).collect::<Vec<_>>(),
+                c.write_accepts,
+                c.vectored,
+                got.len(),
+                end
+            ));
+        }
+    }
+    Ok(())
+}
+
+fn msg_len() -> impl Strategy<Value = u16> {
+    prop_oneof![
+        4 => prop::sample::select(vec![1u16, 2, 3, 255, 256, 257, 300]),
+        4 => 1u16..=300,
+        1 => prop::sample::select(vec![511u16, 512, 4096, 65_535]),
+    ]
+}
+
+fn chunk_script() -> impl Strategy<Value = Vec<u16>> {
+    prop_oneof![
+        3 => vec(prop_oneof![3 => 1u16..=3, 1 => Just(0u16), 2 => 1u16..=400], 1..8),
+        1 => Just(vec![1u16]),
+        1 => Just(vec![0u16, 1]),
+        1 => Just(vec![]),
+        1 => vec(prop_oneof![Just(0u16), Just(1u16), Just(2u16), Just(u16::MAX)], 1..6),
+    ]
+}
+
+fn close() -> impl Strategy<Value = Close> {
+    prop_oneof![
+        3 => Just(Close::Never),
+        3 => (0usize..=3).prop_map(Close::AfterMsg),
+        3 => (0usize..3, 0usize..400).prop_map(|(k, n)| Close::Inside(k, n)),
+        1 => (0usize..3, 0usize..400).prop_map(|(k, n)| Close::Reset(k, n)),
+    ]
+}
+
+fn case() -> impl Strategy<Value = Case> {
+    (
+        vec((msg_len(), any::<u8>()), 0..=3),
+        chunk_script(),
+        close(),
+        vec((msg_len(), any::<u8>()), 0..=3),
+        chunk_script(),
+        any::<bool>(),
+        vec(0u8..12, 3),
+    )
+        .prop_map(|(inbound, read_chunks, close, outbound, write_accepts, vectored, send_at)| Case {
+            inbound,
+            read_chunks,
+            close,
+            outbound,
+            write_accepts,
+            vectored,
+            send_at,
+        })
+}
+
+/// every composition of `n` into positive parts, each part optionally preceded by a would-block
+fn compositions(n: usize) -> Vec<Vec<u16>> {
+    // 2^(n-1) compositions; with/without a Pending before each part would be 2^k more — we add
+    // one variant with a would-block before every part
+    let mut out = Vec::new();
+    if n == 0 {
+        return vec![vec![]];
+    }
+    for mask in 0u32..(1 << (n - 1)) {
+        let mut parts = Vec::new();
+        let mut cur = 1u16;
+        for i in 0..n - 1 {
+            if (mask >> i) & 1 == 1 {
+                parts.push(cur);
+                cur = 1;
+            } else {
+                cur += 1;
+            }
+        }
+        parts.push(cur);
+        out.push(parts.clone());
+        let mut with_block = Vec::new();
+        for p in parts {
+            with_block.push(0);
+            with_block.push(p);
+        }
+        out.push(with_block);
+    }
+    out
+}
 
 pub fn check() -> Option<Check> {
-    None
+    let sampled = crate::core::prop_hang(
+        "framing_sampled",
+        120_000,
+        6_000_000,
+        std::time::Duration::from_secs(20),
+        |_| case(),
+        run_case,
+    );
+
+    // short streams: every composition of the inbound stream into read chunks × every close position,
+    // and every composition of the outbound stream into write acceptances
+    let small = enumerate(
+        "framing_small_scope",
+        |env: &Env| {
+            // message length sets whose framed stream is ≤ 12 (quick) / ≤ 14 (thorough) octets
+            let max_total = match env.tier {
+                crate::core::Tier::Quick => 10,
+                crate::core::Tier::Thorough => 13,
+            };
+            let mut cases = Vec::new();
+            let mut shapes: Vec<Vec<u16>> = Vec::new();
+            for a in 1u16..=8 {
+                if (a as usize + 2) <= max_total {
+                    shapes.push(vec![a]);
+                }
+                for b in 1u16..=6 {
+                    if (a + b) as usize + 4 <= max_total {
+                        shapes.push(vec![a, b]);
+                    }
+                    for c3 in 1u16..=3 {
+                        if (a + b + c3) as usize + 6 <= max_total {
+                            shapes.push(vec![a, b, c3]);
+                        }
+                    }
+                }
+            }
+            for shape in shapes {
+                let total: usize = shape.iter().map(|l| *l as usize + 2).sum();
+                let msgs: Vec<(u16, u8)> = shape.iter().enumerate().map(|(i, l)| (*l, 17 + i as u8)).collect();
+                let mut closes = vec![Close::Never];
+                for k in 0..=shape.len() {
+                    closes.push(Close::AfterMsg(k));
+                }
+                for (k, l) in shape.iter().enumerate() {
+                    for n in 0..(*l as usize + 1) {
+                        closes.push(Close::Inside(k, n));
+                    }
+                }
+                for comp in compositions(total) {
+                    for cl in &closes {
+                        // inbound direction
+                        cases.push(Case {
+                            inbound: msgs.clone(),
+                            read_chunks: comp.clone(),
+                            close: cl.clone(),
+                            outbound: vec![],
+                            write_accepts: vec![],
+                            vectored: true,
+                            send_at: vec![],
+                        });
+                    }
+                    // outbound direction (native and default vectored behaviour)
+                    for vectored in [true, false] {
+                        cases.push(Case {
+                            inbound: vec![],
+                            read_chunks: vec![],
+                            close: Close::Never,
+                            outbound: msgs.clone(),
+                            write_accepts: comp.clone(),
+                            vectored,
+                            send_at: vec![0; msgs.len()],
+                        });
+                    }
+                }
+            }
+            (Box::new(cases.into_iter()) as Box<dyn Iterator<Item = Case> + Send>, true)
+        },
+        run_case,
+    );
+
+    Some(Check {
+        id: "C17",
+        level: "exploration",
+        rule: "cases = (0..3 inbound messages with lengths from {1,2,3,255,256,257,300} ∪ 1..300 ∪ {511,512,4096,65535}, a cyclic read-chunk script with sizes ≥1 and zero-progress would-block steps, a close position {never, on a boundary, strictly inside a prefix/body, reset}, 0..3 outbound messages, a cyclic write-acceptance script, native vs default vectored write, send points). Small scope: for every message-length shape whose framed stream is ≤10 (quick) / ≤13 (thorough) octets, ALL compositions of the stream into read chunks (plain and with a would-block before every chunk) × ALL close positions, and ALL compositions into write acceptances. Non-trivial = distinct case AND (a read-chunk boundary falls inside a length prefix OR a vectored write accepted < 2 octets)",
+        assumptions: vec![
+            "zero-length frames and Ok(0) from a write are outside the stated domain and not generated",
+            "the scripted socket wakes immediately after a would-block; a silent peer is modelled as Pending without wake",
+        ],
+        subs: vec![sampled, small],
+    })
 }
